@@ -466,6 +466,9 @@ class ExprMixin:
                     return self.implicit_raise(KeyError, node, op="getitem", operands=(recv, idx))
         if isinstance(recv, (ClassV, Ext)) or (isinstance(recv, Term) and recv.op == "typing"):
             return Term("typing", (recv, idx), node=node)
+        if isinstance(recv, Term) and recv.op == "listcomp" and isinstance(recv.args[0], V):
+            self.partial("getitem", (IndexError,), node, operands=(recv, idx))
+            return recv.args[0]
         if isinstance(recv, SchemaV) or (isinstance(recv, Sym) and recv.kind == "Schema"):
             return self.call_dunder(recv, "__getitem__", [idx], node)
         k = self.kind_of(recv)
@@ -685,18 +688,31 @@ class ExprMixin:
         return self.eval(node.value, fr)
 
     # ------------------------------------------------------------------ iteration
+    def _tag_elem(self, sym: Sym, src: V) -> Sym:
+        nk = self.elem_notkinds.get(src.key())
+        if nk:
+            self.notkinds.setdefault(sym.uid, []).extend(nk)
+        return sym
+
     def generic_element(self, it: V, node: Any) -> V:
+        if isinstance(it, Term) and it.op in ("listcomp", "gencomp", "setcomp") and isinstance(it.args[0], V):
+            return it.args[0]
+        if isinstance(it, Term) and it.op == "items" and isinstance(it.args[0], Term) and it.args[0].op == "dictcomp":
+            return TupleV([it.args[0].args[0], it.args[0].args[1]])
+        if isinstance(it, Term) and it.op == "enumerate" and isinstance(it.args[0], Term) and it.args[0].op in ("listcomp",):
+            src = it.args[0]
+            return TupleV([Sym(f"i@{src.key()[:40]}", "int", ("index", src)), src.args[0]])
         if isinstance(it, Term) and it.op == "enumerate":
             src = it.args[0]
             idx = Sym(f"i@{src.key()}", "int", ("index", src))
             return TupleV([idx, Sym(f"elem@{src.key()}", self._elem_kind(src), ("elem", src, idx))])
         if isinstance(it, Term) and it.op == "items":
             src = it.args[0]
-            k = Sym(f"key@{src.key()}", None, ("key", src))
+            k = self._tag_elem(Sym(f"key@{src.key()}", None, ("key", src)), src)
             return TupleV([k, Sym(f"val@{src.key()}", None, ("val", src, k))])
         if isinstance(it, Term) and it.op == "range":
             return Sym(f"i@{it.key()}", "int", ("range", it))
-        return Sym(f"elem@{it.key()}", self._elem_kind(it), ("elem", it, None))
+        return self._tag_elem(Sym(f"elem@{it.key()}", self._elem_kind(it), ("elem", it, None)), it)
 
     def _elem_kind(self, src: V) -> Optional[str]:
         k = self.kind_of(src)
@@ -755,17 +771,24 @@ class ExprMixin:
         self.emit("loop", node, iterable=it, iterations=n, bounded=(n >= self.unroll))
 
     def _nth_element(self, it: V, n: int) -> V:
+        if isinstance(it, Term) and it.op in ("listcomp", "gencomp", "setcomp") and isinstance(it.args[0], V):
+            return it.args[0]
+        if isinstance(it, Term) and it.op == "items" and isinstance(it.args[0], Term) and it.args[0].op == "dictcomp":
+            return TupleV([it.args[0].args[0], it.args[0].args[1]])
+        if isinstance(it, Term) and it.op == "enumerate" and isinstance(it.args[0], Term) and it.args[0].op in ("listcomp",):
+            src = it.args[0]
+            return TupleV([Sym(f"i{n}@{src.key()[:40]}", "int", ("index", src, n)), src.args[0]])
         if isinstance(it, Term) and it.op == "enumerate":
             src = it.args[0]
             idx = Sym(f"i{n}@{src.key()}", "int", ("index", src, n))
             return TupleV([idx, Sym(f"elem{n}@{src.key()}", self._elem_kind(src), ("elem", src, idx))])
         if isinstance(it, Term) and it.op == "items":
             src = it.args[0]
-            k = Sym(f"key{n}@{src.key()}", None, ("key", src, n))
+            k = self._tag_elem(Sym(f"key{n}@{src.key()}", None, ("key", src, n)), src)
             return TupleV([k, Sym(f"val{n}@{src.key()}", None, ("val", src, k))])
         if isinstance(it, Term) and it.op == "range":
             return Sym(f"i{n}@{it.key()}", "int", ("range", it, n))
-        return Sym(f"elem{n}@{it.key()}", self._elem_kind(it), ("elem", it, n))
+        return self._tag_elem(Sym(f"elem{n}@{it.key()}", self._elem_kind(it), ("elem", it, n)), it)
 
     def _list_extend(self, lst: ListV, rhs: V, node: Any) -> None:
         if isinstance(rhs, (ListV, TupleV)):
